@@ -190,6 +190,10 @@ def validatePath (path : B) : Bool :=
   else if !hasPrefix (s "/") path then false
   else validSegs (splitOn '/' path) []
 
+/-- source text of `validResponseCodePattern` (what `validResponseCode` transcribes; tied to the Go source by
+    `Tie/ConstsC07`) -/
+def validResponseCodeSrc : B := s "^(default|[1-5](\\d{2}|XX))$"
+
 /-- `validResponseCodePattern` = `^(default|[1-5](\d{2}|XX))$` -/
 def validResponseCode (c : B) : Bool :=
   c = s "default" ||
